@@ -59,7 +59,15 @@ const KIB: usize = 1024;
 const MIB: usize = 1024 * 1024;
 /// virtual time: the paused clock only reaches this once nothing else can run
 const WAIT: Duration = Duration::from_secs(3600);
-const REQ_ID: u64 = 0x0C17_0007;
+/// Request id of the case being executed: cycles over an ordinary id, 0 (a valid REPE id), u64::MAX and 1 (the
+/// id the crate's own clients start from) with the case's size and limit, so every path sees all four.
+const REQ_IDS: [u64; 4] = [0x0C17_0007, 0, u64::MAX, 1];
+thread_local! {
+    static CUR_REQ_ID: std::cell::Cell<u64> = const { std::cell::Cell::new(0x0C17_0007) };
+}
+fn rid() -> u64 {
+    CUR_REQ_ID.with(|c| c.get())
+}
 const ECHO_ID: u64 = 0x0C17_00E0;
 const INTERNAL_ERROR: u32 = 9;
 
@@ -586,7 +594,7 @@ async fn server_case(c: &Case, q: usize, b: usize) -> CaseOut {
     let events: Arc<Mutex<Vec<Ev>>> = Arc::default();
     let registry = PeerRegistry::new();
     let mut router = Router::new().with_json("/echo", |v: Value| Ok(v));
-    let resp_hdr = Hdr { version: 1, id: REQ_ID, query_format: 1, ..Default::default() };
+    let resp_hdr = Hdr { version: 1, id: rid(), query_format: 1, ..Default::default() };
     let note_hdr = Hdr { version: 1, id: 0, notify: 1, query_format: 1, ..Default::default() };
     let text = |ch: &str, n: usize| ch.repeat(n);
     let expected: Frame;
@@ -674,29 +682,29 @@ async fn server_case(c: &Case, q: usize, b: usize) -> CaseOut {
     let mut usable = true;
     match c.path {
         PathK::Inline | PathK::OffReader => {
-            let trig = Frame::request(REQ_ID, &query, b"null", frames::FMT_JSON, false);
+            let trig = Frame::request(rid(), &query, b"null", frames::FMT_JSON, false);
             if let Err(e) = conn.send_frame(&trig).await {
                 o.mach(format!("cannot send trigger: {e}"));
                 return o;
             }
             let got = rx(&mut conn.client, &mut o).await;
-            check_response(&mut o, c, &got, &expected, REQ_ID);
+            check_response(&mut o, c, &got, &expected, rid());
         }
         PathK::InlineError | PathK::OffReaderError => {
-            let trig = Frame::request(REQ_ID, &query, b"null", frames::FMT_JSON, false);
+            let trig = Frame::request(rid(), &query, b"null", frames::FMT_JSON, false);
             if let Err(e) = conn.send_frame(&trig).await {
                 o.mach(format!("cannot send trigger: {e}"));
                 return o;
             }
             let got = rx(&mut conn.client, &mut o).await;
-            check_error_response(&mut o, c, &got, &expected, REQ_ID);
+            check_error_response(&mut o, c, &got, &expected, rid());
         }
         PathK::CtxNotify => {
           for _round in 0..c.repeat {
             if !usable {
                 break;
             }
-            let trig = Frame::request(REQ_ID, "/push", b"null", frames::FMT_JSON, false);
+            let trig = Frame::request(rid(), "/push", b"null", frames::FMT_JSON, false);
             if let Err(e) = conn.send_frame(&trig).await {
                 o.mach(format!("cannot send trigger: {e}"));
                 return o;
@@ -706,7 +714,7 @@ async fn server_case(c: &Case, q: usize, b: usize) -> CaseOut {
             loop {
                 match rx(&mut conn.client, &mut o).await {
                     Rx::Bin(m) => match parse_whole(&m) {
-                        Some(f) if f.h.notify == 0 && f.h.id == REQ_ID => {
+                        Some(f) if f.h.notify == 0 && f.h.id == rid() => {
                             if f.h.ec != 0 || f.body != b"true" {
                                 o.mach(format!("handler could not push the notify: ec={} body={:?}", f.h.ec, String::from_utf8_lossy(&f.body)));
                             }
@@ -825,7 +833,7 @@ async fn proxy_case(c: &Case, q: usize, b: usize) -> CaseOut {
     let mut peer: WebSocketStream<End> = WebSocketStream::from_raw_socket(down_cli, Role::Client, Some(unlimited_cfg())).await;
     let task = tokio::spawn(proxy_connection_with_limits(ws_srv, upstream, limits_for(c.limit)));
 
-    let req = Frame::request(REQ_ID, "/up", b"[1]", frames::FMT_JSON, false);
+    let req = Frame::request(rid(), "/up", b"[1]", frames::FMT_JSON, false);
     if let Err(e) = peer.send(WsMessage::Binary(req.to_bytes())).await {
         o.mach(format!("cannot send through the proxy: {e}"));
         return o;
@@ -840,7 +848,7 @@ async fn proxy_case(c: &Case, q: usize, b: usize) -> CaseOut {
     let resp = Frame::new(
         Hdr {
             version: 1,
-            id: REQ_ID,
+            id: rid(),
             query_format: 1,
             body_format: frames::FMT_RAW,
             ec: if c.path == PathK::ProxyError { 4096 } else { 0 },
@@ -851,7 +859,7 @@ async fn proxy_case(c: &Case, q: usize, b: usize) -> CaseOut {
     );
     uctl.b_to_a.push(&resp.to_bytes());
     let got = rx(&mut peer, &mut o).await;
-    check_response(&mut o, c, &got, &resp, REQ_ID);
+    check_response(&mut o, c, &got, &resp, rid());
 
     // clause F through the same proxy connection
     let req2 = Frame::request(ECHO_ID, "/echo", b"7", frames::FMT_JSON, false);
@@ -889,7 +897,7 @@ async fn proxy_case(c: &Case, q: usize, b: usize) -> CaseOut {
 // ------------------------------------------------------------------ proxy: one upstream client shared by two downstream connections
 
 /// Two downstream connections are proxied through clones of ONE upstream `AsyncClient` (every downstream
-/// client numbers its requests from 1, so ids collide). Connection A has request `REQ_ID` in flight upstream;
+/// client numbers its requests from 1, so ids collide). Connection A has request `rid()` in flight upstream;
 /// connection B forwards a request with the same id and a query of `q` bytes. Whatever the proxy does about
 /// it (fail B's connection, answer B itself, forward later): no binary message larger than the limit may reach
 /// either downstream peer, A's answer arrives unchanged, nothing panics.
@@ -919,7 +927,7 @@ async fn proxy_shared_case(limit: usize, q: usize) -> CaseOut {
     let mut pb = peers.pop().unwrap();
     let mut pa = peers.pop().unwrap();
     // A: a request that stays in flight upstream
-    let req_a = Frame::request(REQ_ID, "/up", b"[1]", frames::FMT_JSON, false);
+    let req_a = Frame::request(rid(), "/up", b"[1]", frames::FMT_JSON, false);
     if let Err(e) = pa.send(WsMessage::Binary(req_a.to_bytes())).await {
         o.mach(format!("cannot send through the proxy: {e}"));
         return o;
@@ -931,7 +939,7 @@ async fn proxy_shared_case(limit: usize, q: usize) -> CaseOut {
     }
     // B: the same id, long query
     let query = mk_query(q);
-    let req_b = Frame::request(REQ_ID, &query, b"[2]", frames::FMT_JSON, false);
+    let req_b = Frame::request(rid(), &query, b"[2]", frames::FMT_JSON, false);
     let _ = pb.send(WsMessage::Binary(req_b.to_bytes())).await;
     memstream::settle().await;
     // if the proxy forwarded B's request after all, the upstream answers it (small answer)
@@ -949,7 +957,7 @@ async fn proxy_shared_case(limit: usize, q: usize) -> CaseOut {
         }
     }
     // the upstream answers A (and B's request, if it was forwarded: same id, answered once more)
-    let resp = Frame::new(Hdr { version: 1, id: REQ_ID, query_format: 1, body_format: frames::FMT_JSON, ..Default::default() }, b"/up", b"\"a\"");
+    let resp = Frame::new(Hdr { version: 1, id: rid(), query_format: 1, body_format: frames::FMT_JSON, ..Default::default() }, b"/up", b"\"a\"");
     uctl.b_to_a.push(&resp.to_bytes());
     match rx(&mut pa, &mut o).await {
         Rx::Bin(m) if m == resp.to_bytes() => o.class = Some(Class::Delivered),
@@ -1128,6 +1136,7 @@ async fn client_case(c: &Case, q: usize, b: usize) -> CaseOut {
 
 fn run_case(c: &Case) -> CaseOut {
     let (q, b) = shape(c);
+    CUR_REQ_ID.with(|x| x.set(REQ_IDS[(c.size + c.limit.unwrap_or(7) / 3 + c.repeat as usize) % REQ_IDS.len()]));
     let r = std::panic::catch_unwind(std::panic::AssertUnwindSafe(|| {
         memstream::run_paused(async {
             match c.path {
